@@ -172,3 +172,57 @@ Definition holds_uw (c : uwcase) : bool :=
     && (if no_jump_b (uw_md c) (uw_xs c) then qlist_eqb (uw_obs c) (uw_xs c) else true)
     && no_jump_b (qmax (uw_md c) (half (uw_step c))) (uw_obs c)
   else true.
+
+(* ---------------------------------------------------------------- multi-use histories
+   ONE tool object (the callable returned by maverage(size) / amdf(lag, size), a
+   filter object, or the function itself) applied to several inputs, the lazy
+   output streams pulled in an interleaved order chosen by the harness.
+   mu_obs: what each stream produced (envelope.rms through the argument of its
+   symbolic root, zcross through the injection of its integers).  Every stream
+   must equal the tool's formula on ITS OWN input: calls share no state. *)
+Inductive mtool :=
+  | TMav (s : mav_strategy) (c : Qc) (size : nat)
+  | TAmdf (c : Qc) (size : nat) (lag : Qc)
+  | TEnv (s : env_strategy) (g a1 : Qc)
+  | TClip (low high : option Qc)
+  | TZc (h fs : Qc)
+  | TUw (md step : Qc)
+  | TAcc (s : acc_strategy).
+Definition env_vals (l : list eout) : list Qc :=
+  map (fun e => match e with Plain v => v | Sqrt v => v end) l.
+(* one call of the tool (per-call state only) *)
+Definition multi_model (t : mtool) (zero : Qc) (xs : list Qc) : res (list Qc) :=
+  match t with
+  | TMav s c size => maverage s c size zero xs
+  | TAmdf c size lag => amdf c size zero lag xs
+  | TEnv s g a1 => Ok (env_vals (envelope s g a1 xs))
+  | TClip lo hi => clip lo hi xs
+  | TZc h fs => Ok (map zq (zcross h fs xs))
+  | TUw md step => let '(o, e) := unwrap md step xs in if e then Err "ZeroDivisionError" else Ok o
+  | TAcc s => Ok (accumulate s xs)
+  end.
+(* the formula of one call, checked on the observation of that call *)
+Definition multi_holds1 (t : mtool) (zero : Qc) (xs : list Qc) (obs : res (list Qc)) : bool :=
+  match t with
+  | TMav s c size => holds_mav (MV s c size zero xs obs)
+  | TAmdf c size lag => holds_amdf (AM c size zero lag xs obs)
+  | TEnv s g a1 => rqlist_eqb obs (Ok (env_vals (envelope_spec s g a1 xs)))
+  | TClip lo hi => holds_clip (CL lo hi xs obs)
+  | TZc h fs => rqlist_eqb obs (Ok (map zq (zcross_spec h fs xs)))
+  | TUw md step => match obs with
+                   | Ok o => holds_uw (UW md step xs o None)
+                   | Err e => holds_uw (UW md step xs [] (Some e))
+                   end
+  | TAcc s => rqlist_eqb obs (Ok (acc_spec xs))
+  end.
+Record mucase := MU { mu_tool : mtool; mu_ins : list (Qc * list Qc); mu_obs : list (res (list Qc)) }.
+Definition corr_multi (c : mucase) : bool :=
+  list_eqb rqlist_eqb (mu_obs c) (map (fun p => multi_model (mu_tool c) (fst p) (snd p)) (mu_ins c)).
+Fixpoint all2g {A B : Type} (f : A -> B -> bool) (a : list A) (b : list B) : bool :=
+  match a, b with
+  | [], [] => true
+  | x :: a', y :: b' => f x y && all2g f a' b'
+  | _, _ => false
+  end.
+Definition holds_multi (c : mucase) : bool :=
+  all2g (fun p o => multi_holds1 (mu_tool c) (fst p) (snd p) o) (mu_ins c) (mu_obs c).
